@@ -10,23 +10,23 @@ def delivered (links : Option LinkFn) (srcs : List (Nat × Src)) : List (Nat × 
 
 /-! ### concatenation mode -/
 
-def drainC (links : Option LinkFn) : Nat → List (Nat × Src) → List (Nat × Rec) × Option Term
-  | 0, _ => ([], none)
-  | n + 1, rs =>
-    match catRead links rs with
-    | (.got id r, rs') =>
-      let (o, f) := drainC links n rs'
+def drainC (links : Option LinkFn) : Nat → List (Nat × Src) → Option Nat → List (Nat × Rec) × Option Term
+  | 0, _, _ => ([], none)
+  | n + 1, rs, err =>
+    match catRead links rs err with
+    | (.got id r, st) =>
+      let (o, f) := drainC links n st.1 st.2
       ((id, r) :: o, f)
     | (.fin t, _) => ([], some t)
 
 theorem drain_cat (H : Heap) (links : Option LinkFn) :
-    ∀ n rs, drain H n ⟨links, .cat rs⟩ = drainC links n rs
-  | 0, _ => rfl
-  | n + 1, rs => by
+    ∀ n rs err, drain H n ⟨links, .cat rs err⟩ = drainC links n rs err
+  | 0, _, _ => rfl
+  | n + 1, rs, err => by
     unfold drain drainC Merger.read
     simp only
-    cases h : catRead links rs with
-    | mk o rs' =>
+    cases h : catRead links rs err with
+    | mk o st =>
       cases o with
       | got id r => simp only [drain_cat H links n]
       | fin t => rfl
@@ -42,7 +42,7 @@ def catSpec (links : Option LinkFn) : List (Nat × Src) → List (Nat × Rec) ×
 def sizeC (rs : List (Nat × Src)) : Nat := (rs.map fun p => p.2.rest.length).sum
 
 theorem drainC_eq (links : Option LinkFn) :
-    ∀ n rs, sizeC rs < n → drainC links n rs = ((catSpec links rs).1, some (catSpec links rs).2)
+    ∀ n rs, sizeC rs < n → drainC links n rs none = ((catSpec links rs).1, some (catSpec links rs).2)
   | 0 => fun _ h => by omega
   | n + 1 => fun rs => by
     induction rs with
@@ -52,13 +52,13 @@ theorem drainC_eq (links : Option LinkFn) :
       intro hsz
       cases hr : s.rest with
       | nil =>
-        have hread : s.read = .stop s.term := by unfold Src.read; rw [hr]
+        have hread : s.read = .stop s.term s.afterStop := by unfold Src.read; rw [hr]
         cases ht : s.term with
         | eof =>
-          have hc : catRead links ((i, s) :: rest) = catRead links rest := by
+          have hc : catRead links ((i, s) :: rest) none = catRead links rest none := by
             conv => lhs; unfold catRead
             simp only [hread, ht]
-          have hd : drainC links (n + 1) ((i, s) :: rest) = drainC links (n + 1) rest := by
+          have hd : drainC links (n + 1) ((i, s) :: rest) none = drainC links (n + 1) rest none := by
             unfold drainC; rw [hc]
           have hsz' : sizeC rest < n + 1 := by
             simp only [sizeC, List.map_cons, List.sum_cons, hr, List.length_nil] at hsz
@@ -203,7 +203,7 @@ theorem initHeads_pending (links : Option LinkFn) :
     unfold initHeads
     cases hr : s.rest with
     | nil =>
-      have hread : s.read = .stop s.term := by unfold Src.read; rw [hr]
+      have hread : s.read = .stop s.term s.afterStop := by unfold Src.read; rw [hr]
       simp only [hread]
       cases s.term <;> simp [delivered, tagged, hr] <;> simpa [delivered, tagged] using ih
     | cons r rs =>
@@ -223,7 +223,7 @@ theorem initHeads_mem (links : Option LinkFn) :
     have ih := initHeads_mem links rest y
     cases hr : s.rest with
     | nil =>
-      have hread : s.read = .stop s.term := by unfold Src.read; rw [hr]
+      have hread : s.read = .stop s.term s.afterStop := by unfold Src.read; rw [hr]
       simp only [hread] at h
       have h' : y ∈ (initHeads links rest).1 := by cases ht : s.term <;> simpa [ht] using h
       obtain ⟨s', hs', rest'⟩ := ih h'
@@ -248,7 +248,7 @@ theorem initHeads_has (links : Option LinkFn) :
       rw [initHeads]
       cases t.read with
       | got r s' => exact List.mem_cons_of_mem _ hy
-      | stop tt => cases tt <;> exact hy
+      | stop tt _ => cases tt <;> exact hy
     cases h with
     | head =>
       cases hr : t.rest with
@@ -270,7 +270,7 @@ theorem initHeads_ids (links : Option LinkFn) :
     unfold initHeads
     cases s.read with
     | got r s' => exact ih.cons₂ i
-    | stop t => cases t <;> exact ih.cons i
+    | stop t _ => cases t <;> exact ih.cons i
 
 theorem initHeads_err_some (links : Option LinkFn) :
     ∀ (srcs : List (Nat × Src)) (e : Nat), (initHeads links srcs).2 = some e → ∃ p, p ∈ srcs ∧ p.2.term = .err e
@@ -280,7 +280,7 @@ theorem initHeads_err_some (links : Option LinkFn) :
     have ih := initHeads_err_some links rest e
     cases hr : s.rest with
     | nil =>
-      have hread : s.read = .stop s.term := by unfold Src.read; rw [hr]
+      have hread : s.read = .stop s.term s.afterStop := by unfold Src.read; rw [hr]
       simp only [hread] at h
       cases ht : s.term with
       | eof =>
@@ -304,7 +304,7 @@ theorem initHeads_err_none (links : Option LinkFn) :
     have ih := initHeads_err_none links rest
     cases hr : s.rest with
     | nil =>
-      have hread : s.read = .stop s.term := by unfold Src.read; rw [hr]
+      have hread : s.read = .stop s.term s.afterStop := by unfold Src.read; rw [hr]
       simp only [hread] at h
       cases ht : s.term with
       | eof =>
